@@ -184,6 +184,11 @@ def run(ctx: RuleContext):
     ctx.sub(check_extraction_sources, ctx)
     ctx.sub(check_struct_dtype_everywhere, ctx)
     ctx.sub(check_dtype_verdict_not_remembered, ctx)
+    # C03.10: "exactly the documented dtypes": the tables decided by C03.1 / C03.2 are what a category holds for good -- nothing re-binds a
+    # category's dtypes after the class was defined (C20.9)
+    from .c20 import check_categories_are_bound_once
+
+    ctx.reuse("C03.10", check_categories_are_bound_once, ctx, "C03.10")
 
 
 FAMILY_RE = {
